@@ -96,7 +96,51 @@ func (f *Frame) loadFrom(h Heap, p Ptr) Val {
 // store writes v at location p (with the frame obligation).
 func (f *Frame) store(p Ptr, v Val, why string, pos string) {
 	f.frameObl(p.Ref, p.Key, p.Idx, why, pos)
+	f.provStoreObl(p, v, why, pos)
 	f.storeRaw(p, v)
+}
+
+// provStoreObl: a slice or map received from the caller must not be retained inside an item or message
+// (objects of the types that declare an invariant), otherwise the caller could mutate the object afterwards.
+func (f *Frame) provStoreObl(p Ptr, v Val, why, pos string) {
+	s := f.s
+	if f.dry || !strings.HasPrefix(p.Key, "f:") {
+		return
+	}
+	root := strings.TrimPrefix(p.Key, "f:")
+	if i := strings.Index(root, "."); i >= 0 {
+		if j := strings.Index(root[i+1:], "."); j >= 0 {
+			root = root[:i+1+j]
+		}
+	}
+	if _, ok := s.P.Contracts.Types[root]; !ok {
+		return
+	}
+	sv, ok := v.(S)
+	if !ok {
+		return
+	}
+	var ref string
+	switch sv.Ty.Underlying().(type) {
+	case *types.Slice:
+		ref = sliceField("s.ref", sv.T)
+	case *types.Map:
+		ref = sv.T
+	default:
+		return
+	}
+	if s.freshRefs[ref] {
+		return
+	}
+	var cs []string
+	for _, er := range s.extRefs {
+		cs = append(cs, not(eq(ref, er)))
+	}
+	if len(cs) == 0 {
+		return
+	}
+	s.addObl(&Obligation{Name: s.C.Key() + "#prov.store(" + why + ")", Kind: "prov", Guard: f.cur.reach, Goal: or(eq(ref, "0"), and(cs...)), Pos: pos,
+		Clause: "a slice or map passed in by the caller is not stored into an item or message (" + p.Key + ")"})
 }
 
 func (f *Frame) storeRaw(p Ptr, v Val) {
